@@ -175,6 +175,9 @@ package forwarder
 //@     assert [pkt]   arg2 == pkt
 
 // Update FAR: the FAR whose buffered packets are released is the FAR named by the IE, wherever its FAR ID child stands.
+// APPLIED: the buffered packets of the FAR have been released or dropped according to the old and the new action -
+// this has to happen while the data plane still holds the old FAR (applyAction reads it back), i.e. before UpdateFAROID.
+//@ ghost APPLIED bool
 //@ func (g *Gtp5g) UpdateFAR(lSeid uint64, req *ie.IE) (err error)
 //@   requires g != nil && g.link != nil && g.link.conn != nil && g.bsnl != nil && g.bsnl.handler != nil && req != nil
 //@   modifies *
@@ -185,11 +188,17 @@ package forwarder
 //@     assert [fp]   len(arg1) == 1 && arg1[0].Type == gtp5gnl.FAR_FORWARDING_PARAMETER && arg1[0].Value == iface(v)
 //@   at call append#3:
 //@     assert [bar]  len(arg1) == 1 && arg1[0].Type == gtp5gnl.FAR_BAR_ID && arg1[0].Value == iface(nl.AttrU8(v))
+//@   after call UpdateFAR:
+//@     set APPLIED := false
 //@   at call applyAction:
 //@     assert [seid]  arg0 == lSeid
 //@     assert [farid] forall j int :: idx < j && j < len(ies) ==> ies[j].Type != ie.FARID
+//@     assert [which] arg1 == int(farid) && arg2 == act
+//@   after call applyAction:
+//@     set APPLIED := true
 //@   at call UpdateFAROID:
 //@     assert [oid]   len(arg2) == 2 && arg2[0] == lSeid && arg2[1] == farid
+//@     assert [flushed] hasAct ==> APPLIED
 
 // BAR towards the kernel (C03).  Oracle: TS 29.244 8.2.28 - the Downlink Data Notification Delay IE carries one
 // octet in units of 50 ms (go-pfcp returns it as a time.Duration of that many 50 ms steps); gtp5g's attribute is that
@@ -223,12 +232,53 @@ package forwarder
 // URR towards the kernel and the periodic-report server (C03).  Oracle: TS 29.244 8.2.64 - Measurement Period is a
 // number of seconds (go-pfcp returns a time.Duration); 8.2.19 - PERIO is bit 1 of octet 5 of Reporting Triggers.
 // A URR is registered for periodic querying exactly when its reporting triggers include PERIO.
+// Volume Threshold / Volume Quota sub-lists (TS 29.244 8.2.13, 8.2.50): the flag octet first, then each volume whose
+// flag bit is set, under the attribute of its own kind; [len] makes it "exactly those".
+//@ func (g *Gtp5g) newVolumeThreshold(i *ie.IE) (attrs nl.AttrList, err error)
+//@   requires i != nil
+//@   ensures [len] err == nil ==> len(attrs) == 1 + ite(val(i.VolumeThreshold()).Flags & 1 != 0, 1, 0) + ite(val(i.VolumeThreshold()).Flags & 2 != 0, 1, 0) + ite(val(i.VolumeThreshold()).Flags & 4 != 0, 1, 0)
+//@   ensures [err] (err == nil) == ok(i.VolumeThreshold())
+//@   modifies nothing
+//@   serves C03 C07
+//@   at call append#1:
+//@     assert [flag]  len(arg0) == 0 && len(arg1) == 1 && arg1[0].Type == gtp5gnl.URR_VOLUME_THRESHOLD_FLAG && arg1[0].Value == iface(nl.AttrU8(v.Flags))
+//@   at call append#2:
+//@     assert [tovol] v.Flags & 1 != 0 && len(arg1) == 1 && arg1[0].Type == gtp5gnl.URR_VOLUME_THRESHOLD_TOVOL && arg1[0].Value == iface(nl.AttrU64(v.TotalVolume))
+//@   at call append#3:
+//@     assert [ulvol] v.Flags & 2 != 0 && len(arg1) == 1 && arg1[0].Type == gtp5gnl.URR_VOLUME_THRESHOLD_UVOL && arg1[0].Value == iface(nl.AttrU64(v.UplinkVolume))
+//@   at call append#4:
+//@     assert [dlvol] v.Flags & 4 != 0 && len(arg1) == 1 && arg1[0].Type == gtp5gnl.URR_VOLUME_THRESHOLD_DVOL && arg1[0].Value == iface(nl.AttrU64(v.DownlinkVolume))
+//@ func (g *Gtp5g) newVolumeQuota(i *ie.IE) (attrs nl.AttrList, err error)
+//@   requires i != nil
+//@   ensures [len] err == nil ==> len(attrs) == 1 + ite(val(i.VolumeQuota()).Flags & 1 != 0, 1, 0) + ite(val(i.VolumeQuota()).Flags & 2 != 0, 1, 0) + ite(val(i.VolumeQuota()).Flags & 4 != 0, 1, 0)
+//@   ensures [err] (err == nil) == ok(i.VolumeQuota())
+//@   modifies nothing
+//@   serves C03 C07
+//@   at call append#1:
+//@     assert [flag]  len(arg0) == 0 && len(arg1) == 1 && arg1[0].Type == gtp5gnl.URR_VOLUME_QUOTA_FLAG && arg1[0].Value == iface(nl.AttrU8(v.Flags))
+//@   at call append#2:
+//@     assert [tovol] v.Flags & 1 != 0 && len(arg1) == 1 && arg1[0].Type == gtp5gnl.URR_VOLUME_QUOTA_TOVOL && arg1[0].Value == iface(nl.AttrU64(v.TotalVolume))
+//@   at call append#3:
+//@     assert [ulvol] v.Flags & 2 != 0 && len(arg1) == 1 && arg1[0].Type == gtp5gnl.URR_VOLUME_QUOTA_UVOL && arg1[0].Value == iface(nl.AttrU64(v.UplinkVolume))
+//@   at call append#4:
+//@     assert [dlvol] v.Flags & 4 != 0 && len(arg1) == 1 && arg1[0].Type == gtp5gnl.URR_VOLUME_QUOTA_DVOL && arg1[0].Value == iface(nl.AttrU64(v.DownlinkVolume))
+
 //@ func (g *Gtp5g) CreateURR(lSeid uint64, req *ie.IE) (err error)
 //@   requires g != nil && g.link != nil && g.ps != nil && req != nil
 //@   modifies *
 //@   serves C03 C07
 //@   loop range(ies):
 //@     modifies rptTrig.*
+//@   at call append#1:
+//@     assert [method] len(arg1) == 1 && arg1[0].Type == gtp5gnl.URR_MEASUREMENT_METHOD && arg1[0].Value == iface(nl.AttrU8(measureMethod))
+//@   at call append#2:
+//@     assert [trigger] len(arg1) == 1 && arg1[0].Type == gtp5gnl.URR_REPORTING_TRIGGER && arg1[0].Value == iface(nl.AttrU32(rptTrig.Flags))
+//@   at call append#4:
+//@     assert [info]   len(arg1) == 1 && arg1[0].Type == gtp5gnl.URR_MEASUREMENT_INFO && arg1[0].Value == iface(nl.AttrU64(uint64(v)))
+//@   at call append#5:
+//@     assert [threshold] len(arg1) == 1 && arg1[0].Type == gtp5gnl.URR_VOLUME_THRESHOLD && arg1[0].Value == iface(v)
+//@   at call append#6:
+//@     assert [quota]  len(arg1) == 1 && arg1[0].Type == gtp5gnl.URR_VOLUME_QUOTA && arg1[0].Value == iface(v)
 //@   at call append#3:
 //@     assert [period] len(arg1) == 1 && arg1[0].Type == gtp5gnl.URR_MEASUREMENT_PERIOD && arg1[0].Value == iface(nl.AttrU32(uint32(measurePeriod / 1000000000)))
 //@   at call AddPeriodReportTimer:
@@ -243,6 +293,16 @@ package forwarder
 //@                     ((val(req.ReportingTriggers())[0] & 1 != 0) == (RuleKey(lSeid, 4, uint64(val(req.URRID()))) in PERIOREQ))
 //@   modifies *
 //@   serves C03 C07
+//@   at call append#1:
+//@     assert [method] len(arg1) == 1 && arg1[0].Type == gtp5gnl.URR_MEASUREMENT_METHOD && arg1[0].Value == iface(nl.AttrU8(v))
+//@   at call append#2:
+//@     assert [trigger] len(arg1) == 1 && arg1[0].Type == gtp5gnl.URR_REPORTING_TRIGGER && arg1[0].Value == iface(nl.AttrU32(rptTrig.Flags))
+//@   at call append#4:
+//@     assert [info]   len(arg1) == 1 && arg1[0].Type == gtp5gnl.URR_MEASUREMENT_INFO && arg1[0].Value == iface(nl.AttrU64(uint64(v)))
+//@   at call append#5:
+//@     assert [threshold] len(arg1) == 1 && arg1[0].Type == gtp5gnl.URR_VOLUME_THRESHOLD && arg1[0].Value == iface(v)
+//@   at call append#6:
+//@     assert [quota]  len(arg1) == 1 && arg1[0].Type == gtp5gnl.URR_VOLUME_QUOTA && arg1[0].Value == iface(v)
 //@   at call append#3:
 //@     assert [period] len(arg1) == 1 && arg1[0].Type == gtp5gnl.URR_MEASUREMENT_PERIOD && arg1[0].Value == iface(nl.AttrU32(uint32(v / 1000000000)))
 //@   at call UpdateURROID:
